@@ -58,6 +58,8 @@ class Verifier:
         self.ghost_hits = set()
         self.assumed = set()
         self._fnode_cache = {}
+        self._reach = {}
+        self.pending = []
 
     def asserts_as_obligations(self, fr):
         c = fr.contract
@@ -93,9 +95,26 @@ class Verifier:
             self._dumpn = getattr(self, '_dumpn', 0) + 1
             with open(os.path.join(VERIF_DIR, 'out', 'dump', f'{self._dumpn:03d}-' + name.replace('/', '_')[:80] + '.smt2'), 'w') as f:
                 f.write(s.to_smt2())
-        size = sum(len(p.sexpr()) for p in pc[-3:]) if False else len(pc)
+        size = len(pc)
+        proc = None
+        if getattr(self, 'portfolio', False) and timeout_ms is None:
+            # byte-sequence VCs: cvc5 decides many that z3's sequence solver leaves open - run it alongside
+            smt2_ = s.to_smt2()
+            if 'lambda' not in smt2_ and '(intersection ' not in smt2_ and '(union ' not in smt2_:
+                proc = start_cvc5(smt2_, max(10, self.timeout_ms // 1000) * 2)
+            s.set('timeout', min(self.timeout_ms, 2500))
         r = s.check()
         dt = time.time() - t0
+        if proc is not None:
+            if r in (z3.unsat, z3.sat):
+                kill_cvc5(proc)
+            else:
+                # cvc5 keeps running while the executor goes on; collected at the end of the unit
+                ob = Obligation(name, 'pending', props, dt, 'cvc5', where=where, size=size,
+                                detail=f'z3: {s.reason_unknown()}')
+                ob._proc, ob._t0 = proc, t0
+                self.pending.append(ob)
+                return ob
         if r == z3.unsat:
             return Obligation(name, 'proved', props, dt, 'z3', where=where, size=size)
         if r == z3.sat:
@@ -123,6 +142,7 @@ class Verifier:
     def verify_function(self, key):
         '''Explore every path of the function; returns (obligations, info).'''
         c = self.reg.contracts[key]
+        self.portfolio = bool(getattr(c, 'portfolio', False))
         results = []
         decisions = []
         npaths = 0
@@ -154,6 +174,17 @@ class Verifier:
             decisions = dec
             if npaths > self.max_paths:
                 raise EngineError(f'{key}: more than {self.max_paths} paths')
+        for ob in self.pending:
+            r2, out = finish_cvc5(ob._proc)
+            ob.seconds = time.time() - ob._t0
+            if r2 == 'unsat':
+                ob.status = 'proved'
+            elif r2 == 'sat':
+                ob.status, ob.detail = 'failed', 'cvc5: sat (no model extracted)'
+            else:
+                ob.status, ob.backend, ob.detail = 'unknown', 'z3+cvc5', f'{ob.detail}; cvc5: {out[:200]}'
+            del ob._proc
+        self.pending = []
         info['paths'] = npaths
         info['reached'] = reached
         return results, info
@@ -202,12 +233,14 @@ class Verifier:
         fr.old = ip.snapshot(ip.spec_env(fr))
         ip.entry_env = fr.old
         # vacuity guard: the precondition (with the class invariant) must be satisfiable
-        ip.solver.set('timeout', self.timeout_ms)
-        r = ip.solver.check()
-        ip.solver.set('timeout', self.feas_timeout_ms)
-        if r == z3.unsat:
-            raise EngineError(f'{key}: precondition/invariant unsatisfiable (vacuous contract)')
-        ip.reached = (r == z3.sat)
+        if key not in self._reach:
+            ip.solver.set('timeout', min(self.timeout_ms, 5000))
+            r = ip.solver.check()
+            ip.solver.set('timeout', self.feas_timeout_ms)
+            if r == z3.unsat:
+                raise EngineError(f'{key}: precondition/invariant unsatisfiable (vacuous contract)')
+            self._reach[key] = (r == z3.sat)
+        ip.reached = self._reach[key]
         if c.ghost.get('entry'):
             ip.ghost_exec(c.ghost['entry'], fr)
         selfv = env.get('self')
@@ -302,6 +335,44 @@ class Verifier:
             ip.prove(f'lemma.{name}.cases-exhaustive', z3.Or(*[ip.spec_bool(cs, env) for cs in ax.cases]))
             results.extend(ip.results)
         return results
+
+
+def start_cvc5(smt2, tlimit_s):
+    f = tempfile.NamedTemporaryFile('w', suffix='.smt2', delete=False)
+    f.write('(set-logic ALL)\n' + smt2)
+    f.close()
+    p = subprocess.Popen(['/usr/bin/cvc5', '--strings-exp', f'--tlimit={tlimit_s * 1000}', f.name],
+                         stdout=subprocess.PIPE, stderr=subprocess.STDOUT, text=True)
+    p._path = f.name
+    p._tl = tlimit_s
+    return p
+
+
+def kill_cvc5(p):
+    try:
+        p.kill()
+        p.wait(timeout=5)
+    except Exception:   # noqa
+        pass
+    try:
+        os.unlink(p._path)
+    except OSError:
+        pass
+
+
+def finish_cvc5(p):
+    try:
+        out, _ = p.communicate(timeout=p._tl + 5)
+    except subprocess.TimeoutExpired:
+        kill_cvc5(p)
+        return 'unknown', 'timeout'
+    try:
+        os.unlink(p._path)
+    except OSError:
+        pass
+    out = (out or '').strip()
+    first = out.splitlines()[0].strip() if out else ''
+    return (first if first in ('sat', 'unsat') else 'unknown'), out
 
 
 def run_cvc5(smt2, tlimit_s):
